@@ -28,6 +28,19 @@
 (* the column means (one-pass second moments) is exposed, on both the      *)
 (* m > p and the m <= p path and in both modes.                            *)
 (*                                                                         *)
+(* COLUMN-SCALE FAMILY.  Correlation-mode PCA is invariant under rescaling *)
+(* any column by a positive factor c_j: the standardised data, hence V and *)
+(* the transform, do not change, and the returned P_j = V_j / sd_j is      *)
+(* divided by c_j.  Covariance-mode PCA is invariant under a common factor *)
+(* c: components unchanged, transform multiplied by c.  Field cexp (p       *)
+(* integers, all 0 outside the family) says that column j was multiplied   *)
+(* by 2^cexp[j] (2^-40, 2^-30, 2^30: per column in correlation mode, one   *)
+(* common exponent in covariance mode) before the library saw it and that  *)
+(* the harness has mapped the outputs back exactly (P_j 2^cexp[j] resp. Y  *)
+(* 2^-cexp).  The clauses are evaluated on the small integers, so a guard  *)
+(* or threshold that is secretly absolute (a column of tiny absolute scale *)
+(* treated as constant, a cut-off against machine epsilon) is exposed.     *)
+(*                                                                         *)
 (* All verdicts come from the operators of Pca.tla.                        *)
 (***************************************************************************)
 EXTENDS Pca, TLC, Json, IOUtils
@@ -134,12 +147,16 @@ Clause(e) == IF e.ev = "Pca" THEN PcaClause(e) ELSE IF e.ev = "Tsvd" THEN TsvdCl
 HitOf(e, c) == IF e.ev = "Pca" THEN PcaHit(e, c) ELSE TsvdHit(e, c)
 HitNames == {"Pca_cov_svd_k", "Pca_cov_svd_full", "Pca_cov_evd_k", "Pca_cov_evd_full", "Pca_corr_k", "Pca_corr_full",
              "Tsvd", "TsvdReject", "OutOfRange", "Unconstrained",
-             \* second counter: membership of the offset family, by code path
-             "Offset_cov_svd", "Offset_cov_evd", "Offset_corr", "NoOffset"}
+             \* second counter: membership of the offset / column-scale family, by code path
+             "Offset_cov_svd", "Offset_cov_evd", "Offset_corr",
+             "Scaled_cov_svd", "Scaled_cov_evd", "Scaled_corr_tall", "Scaled_corr_wide", "Plain"}
+PcAllZero(v) == \A j \in 1..Len(v) : v[j] = 0
 OffsetHit(e) ==
-    IF e.ev # "Pca" \/ \A j \in 1..Len(e.off) : e.off[j] = 0 THEN "NoOffset"
-    ELSE IF e.mode = "corr" THEN "Offset_corr"
-    ELSE IF Len(e.X) > PcNCols(e.X) THEN "Offset_cov_svd" ELSE "Offset_cov_evd"
+    IF e.ev # "Pca" \/ (PcAllZero(e.off) /\ PcAllZero(e.cexp)) THEN "Plain"
+    ELSE LET fam == IF PcAllZero(e.cexp) THEN "Offset_" ELSE "Scaled_"
+             tall == Len(e.X) > PcNCols(e.X) IN
+         IF e.mode = "corr" THEN (IF fam = "Offset_" THEN "Offset_corr" ELSE IF tall THEN "Scaled_corr_tall" ELSE "Scaled_corr_wide")
+         ELSE fam \o (IF tall THEN "cov_svd" ELSE "cov_evd")
 
 Judge(e, c) ==
     /\ IF c \in {"", "OutOfRange", "Unconstrained"} THEN nbad' = nbad
